@@ -93,6 +93,15 @@ S = {
  'ivar-fields': 'class x:\n    """\n    @ivar a: doc\n    @type a: C{int}\n    @cvar a: again\n    @ivar: noname\n    @ivar b c: twonames\n    @type: nothing\n    @var x: selfname\n    """\n    a = 1', 'ivar-fields-rst': 'class x:\n    """\n    :ivar a: doc\n    :vartype a: int\n    :var a b: twonames\n    :type a:\n    :ivar:\n    """',
  'param-fields': 'def x(a, *b, c=1, **d):\n    """\n    @param a: one\n    @param a: twice\n    @param *b: star\n    @param **d: starstar\n    @param e: nope\n    @type nope: int\n    @keyword c: kw\n    @keyword z: kw2\n    @return:\n    @rtype:\n    @raise: noexc\n    @raises X Y: two\n    """',
  'cycle-alias': 'x = y\ny = x\nclass z(x): pass\nw = w', 'alias-to-import': 'import os.path as p\nq = p\nr = q.join\nclass s(q.nope): pass\nt = s.mro', 'self-import': 'import pk\nfrom pk import m0\nfrom . import m0 as again\nfrom .m0 import *\nx = pk.m0.x',
+
+ # ---- additions after the second round of seeded changes
+ 'doc-indented-field-then-list': 'def x(a):\n    """\n\n      @param a: w\n\n    - """',
+ 'doc-indented-field-then-section': 'def x(a):\n    """\n    Text.\n\n      @param a: w\n      @return: r\n\n    Notes\n    =====\n    More.\n    """',
+ 'doc-long-same-headings': 'def x():\n    """\n    Intro.\n\n    ' + ('A section title that is a good deal longer than forty eight characters\n    ' + '=' * 70 + '\n    text\n\n    ') * 2 + '"""',
+ 'const-nested-18': 'from typing import Final\nX: Final = ' + '[' * 18 + ', '.join(['"a rather long leaf value number %d"' % i for i in range(4)]) + ']' * 18,
+ 'const-nested-mixed': 'from typing import Final\nX: Final = ' + '{"k": (' * 9 + 'f(a < b, lambda: 0, x if y else z)' + ',)}' * 9,
+ 'ann-str-deep': 'def x(a: "' + '-' * 6000 + '1"): pass', 'ann-str-attr-deep': 'x: "a' + '.a' * 20000 + '" = 1',
+ 'deco-odd-method': 'class K:\n    @hooks["before"]\n    def x(self): pass\n    @retry(3)(fallback)\n    def y(self): pass\n    @(a or b)\n    def z(self): pass\n    @make().attr\n    def w(self): pass',
 }
 
 
